@@ -20,14 +20,17 @@ Parameters the hook cannot see are bound as follows (PARAM_DOMAINS; this table i
 A function with a parameter that has no entry here is reported, never skipped."""
 import json
 import os
+import re
 
 import common
 import driver
+from time import time as _now
 
 HARNESS = ("c01_lanewords", ["c01_lanewords.c", "c01_lanewords_wb.c"])
 IMPORTS = ["Word", "Gen_consts", "Gen_fields", "Gen_dqstate", "LaneWords"]
 COQ_DEPS = ["Model/LaneWords.vo"]
 M64 = (1 << 64) - 1
+EXHAUSTIVE_BUDGET_S = 150     # complete search over `owned` for the cases the proposals miss: seconds per run
 RMW_KINDS = (6, 7, 8, 9, 10)       # add sub and or xor (hook numbering); 5 = weak compare-and-swap; 1 = load
 KIND_NAME = {1: "load", 2: "store", 3: "xchg", 4: "cas", 5: "casw", 6: "add", 7: "sub", 8: "and", 9: "or", 10: "xor"}
 
@@ -271,7 +274,10 @@ def param_domain(fn, p, ctx):
     if name == "set_owner_and_set_full_width":
         return [me | K["FULL_BIT"] | K["IB"], me | K["FULL_BIT"]]
     if name == "next_owner":
-        return sorted(ctx["owners"])
+        # the thread the lock is handed to: admissible = thread ids seen in this run; proposed first = the owner bits of the result
+        new = ctx.get("new")
+        hit = {new & K["OWNER_MASK"]} & set(ctx["owners"]) if new is not None else set()
+        return sorted(hit) if hit else sorted(ctx["owners"])
     if name == "dq_dq_width":
         return list(widths)
     if name == "pending_barrier_width":
@@ -330,8 +336,24 @@ def axes(fn, ctx):
         d = param_domain(fn, p, ctx)
         if d is None:
             return None, p["name"]
+        if p["name"] in ctx.get("unused", {}).get(fn["coq"], ()):
+            d = list(d)[:1]      # the generated body does not mention this parameter: its value cannot matter
         out.append(tuple(d))
     return tuple(out), None
+
+
+def unused_params(sites):
+    """per generated function, the parameters whose name does not occur in its body (Gen_dqstate.v as just regenerated)"""
+    with open(os.path.join(common.gen_dir(), "Gen_dqstate.v")) as fh:
+        gen = fh.read()
+    res = {}
+    for s in sites:
+        m = re.search(r"Definition %s [^\n]*:=\n(.*?)\.\n\n" % re.escape(s["coq"]), gen, flags=re.S)
+        if not m:
+            continue
+        res[s["coq"]] = {p["name"] for p in s["params"]
+                         if not re.search(r"(?<![A-Za-z0-9_'])%s(?![A-Za-z0-9_'])" % re.escape(p["name"]), m.group(1))}
+    return res
 
 
 # ----------------------------------------------------------------------------------------------------------------------
@@ -350,9 +372,11 @@ def evaluate(name, cases, chunk=4000, timeout=900):
         for _, cand in part:
             if cand not in sets:
                 sets[cand] = "cs%d" % len(sets)
-                body.append("Definition %s : list (list Z) := [%s]." % (sets[cand], "; ".join(zl(v) for v in cand)))
+                body.append("Definition %s : list axis := [%s]." % (sets[cand], "; ".join(v if isinstance(v, str) else "Lit " + zl(v) for v in cand)))
         body.append("Eval vm_compute in [%s]." % ";\n ".join("%s %s" % (call, sets[cand]) for call, cand in part))
+        t0 = _now()
         ok, vals, raw = driver.coq_eval("%s_%d" % (name, c0), IMPORTS, "\n".join(body) + "\n", timeout=timeout)
+        common.log("lanewords: %s chunk %d: %d cases, %d parameter sets, %.1fs" % (name, c0, len(part), len(sets), _now() - t0))
         if not ok or len(vals) != 1:
             raise RuntimeError("Coq evaluation of recorded transitions failed: " + raw[-2000:])
         xs = driver.ints(vals[0])
@@ -388,22 +412,24 @@ def run(ctx, pid=None, scenarios=None):
     file_id = {f: i for i, f in enumerate(table["files"])}
 
     loop_ranges = [(x["file"], x["line_lo"], x["line_hi"]) for x in sites if x["kind"] == 5]
+    unused = unused_params(sites)
 
     def find(file, line, kind):
         return [s for s in sites if s["file"] == file and s["line_lo"] <= line <= s["line_hi"] and s["kind"] == kind]
     scen = scenarios or SCEN.get(pid or "", ALL_SCEN)
-    seeds = [ctx.seed * 100 + i for i in range(2 if ctx.tier == "quick" else 6)]
+    # quick: one seed per scenario (the whole ./check of a property has 3 minutes, shared with the API-level oracle)
+    seeds = [ctx.seed * 100 + i for i in range(1 if ctx.tier == "quick" else 4)]
     scale = 1 if ctx.tier == "quick" else 3
     ddir = os.path.join(common.CACHE, "lanewords")
     os.makedirs(ddir, exist_ok=True)
-    cases, keyidx = [], {}            # distinct Coq cases; key -> index
+    cases, keyidx, meta = [], {}, []  # distinct Coq cases; key -> index; per case (index of the `owned` axis, widths, constants)
     uses = []                         # (case index, what, description) per recorded transition
     holes, per_fn, nodomain, notes_all = {}, {}, {}, {"open_at_end": 0}
     chain_problems, chain_stats = [], {"queues": 0, "edges": 0}
     runs, recorded_total = 0, 0
 
     vcache = {}
-    DATA_PARAMS = {"owned", "delta", "da_width"}
+    DATA_PARAMS = {"owned", "delta", "da_width", "next_owner"}
 
     def cached_vectors(s, ctxp):
         dep = (ctxp["old"], ctxp.get("new")) if any(p["name"] in DATA_PARAMS for p in s["params"]) else None
@@ -426,12 +452,14 @@ def run(ctx, pid=None, scenarios=None):
         if key not in keyidx:
             keyidx[key] = len(cases)
             cases.append(key)
+            oi = [i for i, p in enumerate(s["params"]) if p["name"] == "owned"]
+            meta.append((oi[0] if oi else None, tuple(ctxp["widths"]), ctxp["K"]))
         uses.append((keyidx[key], s["coq"], kindname, "%s:%d %s %d -> %s" % (
             file, line, kindname, old, new if kindname == "commit" else "left the loop after " + str(recd))))
 
     for sc in scen:
         for i, seed in enumerate(seeds):
-            pm = [0, 200, 400][i % 3]
+            pm = [200, 0, 400][i % 3]
             dp = os.path.join(ddir, "%s-%d.txt" % (sc, seed))
             if os.path.exists(dp):
                 os.remove(dp)
@@ -462,7 +490,7 @@ def run(ctx, pid=None, scenarios=None):
             chain_stats["edges"] += cs["edges"]
 
             def pctx(tid, q, old, new=None):
-                return {"K": d.K, "tid": tid, "widths": d.queues[q]["widths"], "owners": owners, "old": old, "new": new}
+                return {"K": d.K, "tid": tid, "widths": d.queues[q]["widths"], "owners": owners, "old": old, "new": new, "unused": unused}
             for (thr, tid, q, file, line, old, new, okk, cw) in attempts:
                 ss = find(file, line, 5) if file in file_id else []
                 if not ss:
@@ -490,11 +518,47 @@ def run(ctx, pid=None, scenarios=None):
                     add_case("commit", s, file, line, kind, old, new, None, pctx(tid, q, old, new))
 
     verdicts = evaluate("lanewords_%s" % (pid or "all"), cases) if cases else []
+    # second pass: a case the proposed parameters do not reproduce is judged again over EVERY admissible value of `owned`
+    # (LaneWords.Owned / ex_owned: searched inside Coq, never written out): what stays unexplained has no admissible parameters at all
+    redo = [i for i, v in enumerate(verdicts) if v == 2 and meta[i][0] is not None]
+    skipped = set()
+    if redo:
+        import time as _time
+        t_end = _time.time() + EXHAUSTIVE_BUDGET_S
+        reproduced = 0
+        for c0 in range(0, len(redo), 8):
+            part = redo[c0:c0 + 8]
+            left = t_end - _time.time()
+            if left < 5:
+                skipped.update(redo[c0:])      # out of time: these keep the first pass's verdict, and are labelled so
+                break
+            full = []
+            for i in part:
+                call, cand = cases[i]
+                oi, widths, K = meta[i]
+                gen = "Owned %d %d %d %d %d %s" % (K["IB"], K["WI"], K["PB"], K["ENQ"], K["ENQ_MGR"], zl(widths))
+                full.append((call, tuple(gen if j == oi else a for j, a in enumerate(cand))))
+            try:
+                second = evaluate("lanewords_%s_full" % (pid or "all"), full, chunk=8, timeout=max(10, int(left)))
+            except RuntimeError:
+                skipped.update(redo[c0:])
+                break
+            for i, v in zip(part, second):
+                verdicts[i] = v
+                reproduced += (v == 1)
+        res["distribution"]["cases_needing_exhaustive_owned_search"] = len(redo)
+        res["distribution"]["cases_left_to_the_first_pass_verdict"] = len(skipped)
+        res["distribution"]["of_which_reproduced"] = reproduced
     bad = {}
     for (ci, fn, kindname, text) in uses:
         v = verdicts[ci]
         if v != 1:
+            if v == 2 and ci in skipped:
+                v = 20
             why = {0: "no generated function", 2: "the generated function does not produce the recorded result for any admissible parameters",
+                   20: "the generated function does not produce the recorded result for the proposed parameters (the complete search over `owned` "
+                       "ran out of its time budget before this case)",
+                   4: "a parameter has no admissible value",
                    3: "parameter vectors do not fit the generated function"}.get(v, "verdict %s" % v)
             k = (fn, why)
             if k not in bad:
